@@ -418,6 +418,7 @@ func checkC07(w *World, r *Report) {
 	ruleSpacers(w, r, "C07")
 	ruleComponentWidths(w, r, "C07")
 	ruleTermSize(w, r, "C07")
+	ruleWriterNew(w, r, "C07")
 	ruleStatisticsFaithful(w, r, "C07")
 	ruleRenderSize(w, r, "C07")
 	ruleOptionTable(w, r, "C07", map[string][3]string{"WithWidth": {tPState, "reqWidth", "param"}, "BarWidth": {tBState, "reqWidth", "param"}, "BarFillerTrim": {tBState, "trimSpace", "true"}})
